@@ -704,15 +704,24 @@ class _Exhausted(Exception):
   """scripted os.urandom answers used up: the while loop of SubsetSum is still running."""
 
 
-def _outcome(f, secs=0.4):
-  """'ok <hex>' / 'err <ExcName>' / 'diverges' (no return within `secs`, or scripted oracle
-  exhausted).  SIGALRM-based: nothing may hang the check."""
+def _outcome(f, secs=0.4, wall_backstop=120.0):
+  """'ok <hex>' / 'err <ExcName>' / 'diverges' (no return within `secs` of CPU TIME of the calling thread, or
+  scripted oracle exhausted).  Nothing may hang the check, and a loaded machine must not turn a slow call
+  into a false `diverges` (review-2 L31: the limit used to be 0.4 s of WALL CLOCK).  A wall-clock tick
+  (ITIMER_REAL every 50 ms) only POLLS; the limit is on time.thread_time() (CLOCK_THREAD_CPUTIME_ID: user +
+  system time of this thread - the non-terminating loops of rng.py are busy loops: Lehmer's rejection loop
+  computes, SubsetSum's reads os.urandom), so time during which the thread is not scheduled, and CPU burnt by
+  native helper threads (BLAS pools), do not count; the calls probed here return within microseconds of CPU.
+  `wall_backstop` seconds of wall clock only guard against a call that blocks without consuming CPU."""
   import signal
+  import time
+  c0, w0 = time.thread_time(), time.time()
 
-  def on_alarm(*_a):
-    raise _Hang()
-  old = signal.signal(signal.SIGALRM, on_alarm)
-  signal.setitimer(signal.ITIMER_REAL, secs)
+  def on_tick(*_a):
+    if time.thread_time() - c0 >= secs or time.time() - w0 >= wall_backstop:
+      raise _Hang()
+  old = signal.signal(signal.SIGALRM, on_tick)
+  signal.setitimer(signal.ITIMER_REAL, 0.05, 0.05)
   try:
     try:
       r = f()
@@ -770,7 +779,7 @@ def boundary(rep, rng, tier, rngmod, use):
   """Boundary constructor parameters of the four parametrised classes against the total model
   `Rng.run` / `Rng.entryOk` (Model/RngTotal.lean): which parameters return, raise (which
   exception) or do not terminate; n = 0; degenerate os.urandom answers.  Every real call runs
-  under a 0.4 s alarm."""
+  under a 0.4 s CPU-time alarm (`_outcome`)."""
   bt = Batch('rng.total')
   be = Batch('rng.entry_ok')
   ns = [0, 1, 7, 8, 9, 63, 64, 65]
